@@ -6,7 +6,10 @@ patch applied (and undo). Stores everything under /verif/seeded/<prop>-<k>/ with
 import subprocess, sys, os, json, shutil, re
 prop, k = sys.argv[1], sys.argv[2]
 props = [prop] + [a for a in sys.argv[3:] if not a.startswith('--')]
-rnd = 'r2-' if '--r2' in sys.argv else ('r3-' if '--r3' in sys.argv else '')
+rnd = ''
+for a in sys.argv:
+    m = re.match(r'--(r\d+)$', a)
+    if m: rnd = m.group(1) + '-'
 src = '/tmp/seedout/%s%s/%s' % (rnd, prop, k)
 wt = '/tmp/wt/scratch'
 env = dict(os.environ, GOFLAGS='-mod=mod', GOPROXY='off', GOSUMDB='off', GOTOOLCHAIN='local'); env.pop('GOWORK', None)
